@@ -176,6 +176,31 @@ def check_C03(A: Analysis, tier):
                     rd.fail(site_func(ev), site_text(ev), "a pid reference is unbound outside delete_object / roll-back",
                             site_loc(A, ev))
     rules.append(rd)
+    rh3 = Rule("C03", "C03.h", "the tagging roll-back changes a reference file only after its guard has returned: the pid's reference is renamed "
+               "away only once the cid it names was compared with the cid of the failed request (a pid bound to ANOTHER object keeps its binding "
+               "when a re-tag of it fails), a cid list is changed only once the cid claim was confirmed", floor=3)
+    guard, lockchk = A.impl_q("_validate_and_check_cid_lock"), A.impl_q("_check_object_locked_cids")
+    seen3 = set()
+    for e in ("tag_object", "store_object"):
+        for m in ALL_MODES:
+            it = A.api(e, m)
+            for ev in it.events:
+                if Q("_untag_object") not in ev.ctx or ev.kind not in ("RENAME", "REMOVE", "WRITE"):
+                    continue
+                for i, c in resource_hits(ev, {"PIDREFS", "CIDREFS"}):
+                    if i != 0:
+                        continue
+                    rh3.ob()
+                    need = guard if base_class(c).cls == "PIDREFS" else lockchk
+                    k = (site_func(ev), site_text(ev), base_class(c).cls)
+                    if k not in seen3:
+                        seen3.add(k)
+                        rh3.inst(f"{site_func(ev)}: `{site_text(ev)[:50]}` on {base_class(c).cls}")
+                    if ("call", need) not in ev.done and ("call", guard) not in ev.done:
+                        rh3.fail(site_func(ev), site_text(ev), f"the roll-back performs {ev.kind} on {base_class(c).cls} on a path on which {need.split('.')[-1]} has not "
+                                 "returned yet: when the failed request named another cid than the one the pid is bound to, the pid loses its (valid) binding "
+                                 "before the mismatch is noticed", site_loc(A, ev), {"entry": e, "mode": m})
+    rules.append(rh3)
     from .rules_locks import release_held_rule
     rg3 = Rule("C03", "C03.g", "the tagging claim on a pid (reference_locked_pids), inside which bind-or-reject is decided, is released "
                "only by the call that holds it (shared with C07.f)", floor=2)
@@ -1040,6 +1065,22 @@ def computehash_rule(A, rule):
             if isinstance(l.target, ast.Name) and isinstance(inner, ast.Name) and inner.id == l.target.id \
                     and isinstance(l.iter, ast.Name) and l.iter.id == sp:
                 ok = True  # every element yielded by iterating the argument
+        # block-wise reading of a handle until the empty read: `while data := x.read(n): update(data)` and
+        # `while True: data = x.read(n); if not data: break; update(data)` feed the whole content too
+        for w in [w for w in ast.walk(ch.node) if isinstance(w, ast.While) and any(u is x for x in ast.walk(w))]:
+            def is_read(e):
+                return isinstance(e, ast.Call) and isinstance(e.func, ast.Attribute) and e.func.attr == "read" and isinstance(e.func.value, ast.Name) \
+                    and e.func.value.id == sp
+            if isinstance(inner, ast.Name) and isinstance(w.test, ast.NamedExpr) and w.test.target.id == inner.id and is_read(w.test.value):
+                ok = True
+            if isinstance(inner, ast.Name) and isinstance(w.test, ast.Constant) and w.test.value is True:
+                reads = [i for i, b_ in enumerate(w.body) if isinstance(b_, ast.Assign) and len(b_.targets) == 1 and isinstance(b_.targets[0], ast.Name)
+                         and b_.targets[0].id == inner.id and is_read(b_.value)]
+                stops = [i for i, b_ in enumerate(w.body) if isinstance(b_, ast.If) and isinstance(b_.test, ast.UnaryOp) and isinstance(b_.test.op, ast.Not)
+                         and isinstance(b_.test.operand, ast.Name) and b_.test.operand.id == inner.id and b_.body and isinstance(b_.body[-1], ast.Break)]
+                upd = [i for i, b_ in enumerate(w.body) if any(u is x for x in ast.walk(b_))]
+                if reads and stops and upd and reads[0] < stops[0] < upd[0]:
+                    ok = True
         if not ok:
             rule.fail(ch, u, f"`{norm(u)[:80]}` does not hash exactly the elements of `{sp}` (it is fed a slice, a length-bounded block or something "
                       "else): two different identifiers can get the same hash, or the same identifier a non-standard one", A.p.loc(ch, u))
